@@ -33,7 +33,8 @@ RULE = ("1..4 self-consistent simulated devices x 1..5 services of real pyatv se
         "and very long values - on some services of some devices, next to ordinary devices; one datagram the "
         "decoder rejects (value-less non-ASCII TXT attribute, truncated header) at every position; scans "
         "restricted with protocol= compared with the same scan without the unrequested answers; "
-        "identifier-restricted scans below the early-exit threshold), rendered to "
+        "identifier-restricted scans below the early-exit threshold; populations of look-alike devices sharing "
+        "name, model, ports, instance names and TXT content except the identifiers), rendered to "
         "response datagrams; all permutations of up to 5 (quick) / 6 (thorough) datagrams, sampled beyond, "
         "each with random duplication; multicast and unicast scanner; non-trivial = >=2 datagrams, a "
         "configuration is returned and the delivery order differs from the reference order or has a "
@@ -638,7 +639,7 @@ def gen_case_hostile(rng, mode, i):
             "absent": [d["addr"] for d in devs if d["expect_absent"]], "consistent": True}
 
 
-def gen_device(rng, idx, allow_noid=True, mixed=None, nsvc=None, hostile=None):
+def gen_device(rng, idx, allow_noid=True, mixed=None, nsvc=None, hostile=None, name=None, look=None, renamed=False):
     """One self-consistent device: unique address/host/names; services of one pyatv protocol agree on
     port, identifier and shared property keys; all services yield the same name; one model.
     Single services may lack a unique identifier while others of the same device have one (Companion
@@ -646,7 +647,11 @@ def gen_device(rng, idx, allow_noid=True, mixed=None, nsvc=None, hostile=None):
     UniqueIdentifier); `_airport` / `_sleep-proxy` services (registered types that never yield a
     service) may stand next to them.  `mixed=True` forces such a mixture."""
     a = idx + 1
-    name = "Dev%d" % a
+    # `name` / `look`: devices may share everything that is NOT an identifier - the user-visible name, ports,
+    # property values - while address, host name and identifiers stay their own
+    key = a if look is None else look
+    name = name or "Dev%d" % a
+    inst_base = "%s (%d)" % (name, a) if renamed else name      # mDNS conflict resolution renames the instance only
     mac = "AA:BB:CC:00:00:%02X" % a
     pool = [T_MRP, T_AIRPLAY, T_RAOP, T_COMPANION, T_TOUCH, T_ATV2, T_HSCP]
     if mixed is None:
@@ -668,13 +673,13 @@ def gen_device(rng, idx, allow_noid=True, mixed=None, nsvc=None, hostile=None):
         drop = set(rng.sample(single, rng.randint(1, max(1, maxdrop))))
     has_hscp = T_HSCP in kinds
     model = None if has_hscp or rng.chance(0.3) else rng.choice(MODELS)
-    dmap_port = 3689 + a
+    dmap_port = 3689 + key
     dmap_id = "DMAP%04d" % a
-    shared = [("sharedkey", "s%d" % a)] if rng.chance(0.5) else []
+    shared = [("sharedkey", "s%d" % key)] if rng.chance(0.5) else []
     services = []
     has_id = False
     for t in kinds:
-        props, inst, port = [], name, 7000 + 10 * a + t
+        props, inst, port = [], inst_base, 7000 + 10 * key + t
         none = noid or t in drop
         if t == T_MRP:
             props = [("Name", name)] + ([] if none else [("UniqueIdentifier", "" if emptyid else "MRP-%d" % a)])
@@ -695,10 +700,10 @@ def gen_device(rng, idx, allow_noid=True, mixed=None, nsvc=None, hostile=None):
             props, port = [("CtlN", name)], dmap_port
         elif t == T_ATV2:
             inst = ("_y%d" % a) if noid or emptyid else dmap_id + "_hs"
-            props, port = [("Name", name), ("hG", "0000-%d" % a)], dmap_port
+            props, port = [("Name", name), ("hG", "0000-%d" % key)], dmap_port
         elif t == T_HSCP:
             inst = "hscp%d" % a
-            props = [("Machine Name", name), ("hG", "0000-%d" % a), ("Machine ID", "" if noid or emptyid else dmap_id)]
+            props = [("Machine Name", name), ("hG", "0000-%d" % key), ("Machine ID", "" if noid or emptyid else dmap_id)]
             port = dmap_port
         if not (none or emptyid or noid):
             has_id = True
@@ -1029,6 +1034,30 @@ def identifier_cases(ctx, rng):
                 break
 
 
+def gen_case_lookalikes(rng, mode, i):
+    """Two or three DIFFERENT devices at different addresses that share what is not an identifier: the name
+    (factory-named units), the model, ports, instance names (or only their suffix after mDNS renaming) and the
+    TXT content except the identifier.  One configuration per address, each with its own services, in every
+    arrival order."""
+    n = 2 + (i % 3 == 2)
+    name = ["Apple TV", "HomePod", "Living Room"][i % 3]
+    nsvc = rng.randint(2, 3) if n == 2 else 2
+    devs = []
+    for k in range(n):
+        # the same random stream for every unit: same service types, same optional properties, same model
+        d = gen_device(rng.fork("unit"), k, allow_noid=False, mixed=(i % 4 == 3), nsvc=nsvc, hostile=False,
+                       name=name, look=0, renamed=(i % 2 == 1 and k > 0))
+        d["sleeping"] = False
+        if i % 5 == 4 and k == 1:
+            d["info"] = "J42dAP" if d["info"] != "J42dAP" else "J105aAP"     # another hardware generation
+        devs.append(d)
+    protoset = None if mode == "m" else [None, [3, 5], [2, 4]][i % 3]
+    dgrams, hosts = layout(rng, mode, devs, protoset)
+    return {"mode": mode, "protoset": protoset, "hosts": hosts, "enc": rng.choice(["r", "c"]), "dgrams": dgrams,
+            "absent": [d["addr"] for d in devs if d["expect_absent"]], "consistent": True,
+            "names_agree": not (i % 2 == 1)}
+
+
 def gen_case_inconsistent(rng, mode):
     """Correspondence only: contradictory records (exercise first-wins / last-wins / merge order)."""
     desc = gen_case_m(rng, rng.randint(1, 2), 4) if mode == "m" else gen_case_u(rng, rng.randint(1, 2))
@@ -1119,7 +1148,9 @@ def evaluate(ctx, desc, orders, label):
                 if shown[field] is not None and shown[field] != model[field]:
                     ctx.disagree(small, shown[field], model[field], where=field)
                     break
-            if desc["consistent"] and (model["sc"] != "1" or model["opq"] != "1"):
+            # `sc` (the theorems' hypothesis) also asks that all services of a device yield the same device NAME;
+            # the property does not (the name is not part of the snapshot): renamed instances are exempt
+            if desc["consistent"] and desc.get("names_agree", True) and (model["sc"] != "1" or model["opq"] != "1"):
                 ctx.disagree(small, "generated self-consistent", "sc=%s opq=%s" % (model["sc"], model["opq"]),
                              where="hypotheses of the theorems")
             if case.services is not None and res["services"] is not None and res["services"] != case.services:
@@ -1280,6 +1311,12 @@ def run(ctx, only=None):
         desc = gen_case_undecodable(r, "mmu"[i % 3], i)
         n = len(desc["dgrams"])
         evaluate(ctx, desc, orders_for(r, n, min(full, 5), samples, 1), "undecodable-datagram")
+    # 2g. look-alike devices: everything but the identifiers (and addresses) in common
+    for i in range(ctx.scale(6, 18)):
+        r = rng.fork("lookalike", i)
+        desc = gen_case_lookalikes(r, "mmu"[i % 3], i)
+        n = len(desc["dgrams"])
+        evaluate(ctx, desc, orders_for(r, n, min(full, 5), samples, 1), "lookalike-devices")
     # 2f. identifier-restricted scans below the early-exit threshold (oracle only)
     identifier_cases(ctx, rng)
     # 3. contradictory data: correspondence only
